@@ -48,6 +48,20 @@ GLUE = [
     "SELECT a--b\nFROM t\n",
     "SELECT a/*b*/FROM t\n",
     "SELECT 1-1, 1--1, 1- -1 FROM t\n",
+    "SELECT - - 1 FROM t\n",
+    "SELECT -\n-1 FROM t\n",
+    "SELECT a FROM t WHERE a = - - 1\n",
+    "SELECT + + 1, - + 1, + - 1 FROM t\n",
+    "SELECT foo -- c\n (1) FROM t\n",
+    "SELECT f -- c\n(a) FROM t\n",
+    "SELECT a FROM t -- c\n;\n",
+    "SELECT a FROM t-- c\n; SELECT 1\n",
+    "SELECT a /* c */ , b FROM t\n",
+    "SELECT a -- c\n, b FROM t\n",
+    "SELECT a FROM t WHERE a = 1 -- c\nAND b = 2\n",
+    "SELECT a FROM t -- c\nWHERE a = 1\n",
+    "SELECT CAST(a AS INT) -- c\n:: TEXT FROM t\n",
+    "SELECT a. -- c\n b FROM t AS a\n",
 ]
 
 
